@@ -89,6 +89,16 @@ func SGR(r gen.R) string {
 			ps = append(ps, fmt.Sprintf("4:%d", r.Intn(7)))
 		case 7:
 			ps = append(ps, []string{"38", "48;5", "38;2;1", "58:2", "38:5", "48:2:1:2", "38:2::1:2:3", "58;2;300;400;500"}[r.Intn(8)])
+		case 8:
+			// an extended colour cut short after any field, in either notation,
+			// wherever it stands in the list
+			sel := []string{"38", "48", "58"}[r.Intn(3)]
+			full := []string{sel, "2", fmt.Sprint(r.Intn(256)), fmt.Sprint(r.Intn(256)), fmt.Sprint(r.Intn(256))}
+			if r.Intn(3) == 0 {
+				full = []string{sel, "5", fmt.Sprint(r.Intn(256))}
+			}
+			sep := []string{";", ":"}[r.Intn(2)]
+			ps = append(ps, strings.Join(full[:1+r.Intn(len(full))], sep))
 		default:
 			ps = append(ps, fmt.Sprint([]int{0, 1, 2, 3, 4, 5, 7, 8, 9, 21, 22, 23, 24, 25, 27, 28, 29, 30, 37, 39, 40, 47, 49, 59, 90, 97, 100, 107}[r.Intn(28)]))
 		}
